@@ -134,7 +134,9 @@ func Build(id, tier string, seed int64) (*BehavCheck, error) {
 	mcThorough := iavlMc(3, 2, 2, 3, "{0, 3}", allInvs) // 10.5 M distinct states, 552 M transitions (measured); MaxVer = 3 does not finish
 	mcThorough.Timeout = 120 * time.Minute
 	c.Mc = []McSpec{mcQuick}
-	if thorough {
+	// the large instance (10.5 M states, about 25 minutes) for the properties that are invariants of Iavl.tla
+	// itself; the others bring their own theorem / module runs and keep the quick instance of Iavl.tla
+	if thorough && (id == "C01" || id == "C02" || id == "C11" || id == "C14") {
 		c.Mc = []McSpec{mcThorough}
 	}
 	c.Sim = SimSpec{Module: "MCIavl", Spec: "SpecSim", K: 8, V: 3, IVs: "{0, 1, 5}", D: 40, Workers: 8,
